@@ -5,7 +5,7 @@
 #[verifier::external_body]
 pub struct ExIoError(std::io::Error);
 
-//@ASSUME sink model: trait specification attached to std::io::Write (ghost sink/wf/anchor; write accepts any prefix or fails leaving the sink unchanged; flush leaves the sink unchanged). Every io::Write implementor is assumed to be a model of it (n <= buf.len() is io::Write's documented contract).
+//@ASSUME sink model: trait specification attached to std::io::Write (ghost sink/wf/anchor/flushed/infallible; write accepts any prefix or fails leaving the sink unchanged; flush leaves the sink unchanged; a sink that declares itself infallible accepts everything and never fails). Every io::Write implementor is assumed to be a model of it (n <= buf.len() is io::Write's documented contract).
 #[verifier::external_trait_specification]
 #[verifier::external_trait_extension(WriteSpec via WriteSpecImpl)]
 pub trait ExWrite {
@@ -17,6 +17,8 @@ pub trait ExWrite {
     spec fn anchor(&self) -> nat;
     /// everything accepted so far has been flushed (true right after a successful flush; unknown after a write)
     spec fn flushed(&self) -> bool;
+    /// this sink accepts every byte offered and never reports an error (a Vec<u8>); false is always a model
+    spec fn infallible(&self) -> bool;
 
     fn write(&mut self, buf: &[u8]) -> (r: std::io::Result<usize>)
         requires old(self).wf(),
@@ -24,7 +26,9 @@ pub trait ExWrite {
             match r {
                 Ok(n) => n <= buf@.len() && final(self).sink() == old(self).sink() + buf@.subrange(0, n as int),
                 Err(_) => final(self).sink() == old(self).sink(),
-            };
+            },
+            final(self).infallible() == old(self).infallible(),
+            old(self).infallible() ==> (r is Ok && r->Ok_0 == buf@.len());
 
     /// provided method of io::Write (std's default body loops on write, retries Interrupted, turns Ok(0) into
     /// WriteZero): trusted to have this contract for every implementor
@@ -32,10 +36,17 @@ pub trait ExWrite {
         requires old(self).wf(),
         ensures final(self).wf(), final(self).anchor() == old(self).anchor(),
             r is Ok ==> final(self).sink() == old(self).sink() + buf@,
-            r is Err ==> exists|k: int| 0 <= k <= buf@.len() && #[trigger] (old(self).sink() + buf@.subrange(0, k)) == final(self).sink();
+            r is Err ==> exists|k: int| 0 <= k <= buf@.len() && #[trigger] (old(self).sink() + buf@.subrange(0, k)) == final(self).sink(),
+            final(self).infallible() == old(self).infallible(), old(self).infallible() ==> r is Ok;
 
     fn flush(&mut self) -> (r: std::io::Result<()>)
         requires old(self).wf(),
         ensures final(self).wf(), final(self).sink() == old(self).sink(), final(self).anchor() == old(self).anchor(),
-            r is Ok ==> final(self).flushed();
+            r is Ok ==> final(self).flushed(),
+            final(self).infallible() == old(self).infallible(), old(self).infallible() ==> r is Ok;
+}
+
+/// a call on an infallible sink succeeds, and no call changes whether the sink is infallible
+pub open spec fn inf_ok<W: std::io::Write, T>(w0: W, w1: W, r: std::io::Result<T>) -> bool {
+    w1.infallible() == w0.infallible() && (w0.infallible() ==> r is Ok)
 }
